@@ -31,13 +31,14 @@ var agents = [2]agentRef{{0x0000a501, 1, "A"}, {0x0000b502, 2, "B"}}
 // snapshot (sessions, SQLite rows, file tree) with the one taken right after
 // registration: an unsound reset is a harness panic, never a silent wrong verdict.
 type world struct {
-	ts       *seam.TS
-	sendLogs bool
-	ag       [2]*agent.Agent
-	info     [2]agent.AgentInfo
-	base     string // snapshot after registration, with and without the SQLite rows
-	baseNoDB string
-	dirty    [2]bool
+	ts         *seam.TS
+	sendLogs   bool
+	otherFlags bool
+	ag         [2]*agent.Agent
+	info       [2]agent.AgentInfo
+	base       string // snapshot after registration, with and without the SQLite rows
+	baseNoDB   string
+	dirty      [2]bool
 
 	ln    *net.TCPListener // loopback probe hostile relay payloads name
 	port  int
@@ -53,9 +54,21 @@ type world struct {
 	coreChanged bool
 }
 
-func newWorld(sendLogs bool) *world {
-	w := &world{sendLogs: sendLogs}
-	w.ts = seam.New(seam.Options{SendLogs: sendLogs})
+func newWorld(sendLogs bool) *world { return newWorldFlags(sendLogs, false) }
+
+// flagTag names the server flags of this world in signatures.
+func (w *world) flagTag() string {
+	if w.otherFlags {
+		return fmt.Sprintf("%v+debug+debug-dev+verbose", w.sendLogs)
+	}
+	return fmt.Sprint(w.sendLogs)
+}
+
+// newWorldFlags: otherFlags switches on every server flag except --send-logs (none of
+// them is "agent log forwarding": the exemption of beacon output must not follow them).
+func newWorldFlags(sendLogs, otherFlags bool) *world {
+	w := &world{sendLogs: sendLogs, otherFlags: otherFlags}
+	w.ts = seam.New(seam.Options{SendLogs: sendLogs, OtherFlags: otherFlags})
 	for i, x := range agents {
 		w.ag[i] = w.ts.MustRegister(x.id, x.key)
 		w.info[i] = *w.ag[i].Info
